@@ -444,7 +444,7 @@ async fn world(rep: Arc<Report>, seed: u64, shard: u64, variant: &'static str, n
     }
     if variant == "server" {
         check_after_restart(&rep, &mut t, &finals).await;
-        if let Target::Server { server, dns, http, .. } = &mut t {
+        if let Target::Server { server, dns, .. } = &mut t {
             rep.count("transport.udp_retries", dns.udp_retries);
             rep.count("transport.tc_fallbacks", dns.tc_fallbacks);
             if let Some(s) = server.take() {
